@@ -80,7 +80,7 @@ def main(tier):
         rep.violation(name, sig, what, replay_body=REPLAY % (cases,), **kw)
 
     # ------------------------------------------------------------------ symbolic n, d, k : floor
-    ex = Exec(mod, stubs); ex.reset(); ex.ovf_mode = 'obligation'
+    ex = Exec(mod, stubs); ex.reset(); ex.ovf_mode = 'obligation'; ex.fp_exact = True
     k, n, d = z3.Ints('k n d')
     for c in domain(k, n, d): ex.assume(c)
     try:
@@ -128,7 +128,7 @@ def main(tier):
         rep.ob('floor.witness', 'inconclusive', detail='no witness: ' + r)
 
     # ------------------------------------------------------------------ symbolic: ceil
-    ex2 = Exec(mod, stubs); ex2.reset(); ex2.ovf_mode = 'obligation'
+    ex2 = Exec(mod, stubs); ex2.reset(); ex2.ovf_mode = 'obligation'; ex2.fp_exact = True
     s_, p_, n2, d2 = z3.Ints('s p n d')
     for c in [s_ >= 0, s_ < rates.Y9999, p_ >= 0, p_ < T12, n2 >= 1, n2 < 2**32, d2 >= 1, d2 <= 10**9, n2 * d2 < 2**64]: ex2.assume(c)
     ret2, out = run_ceil(ex2, s_, p_, n2, d2)
@@ -165,7 +165,7 @@ def main(tier):
     t_rates = time.time(); nr = 0; rate_fail = False; skipped = []
     qs0 = st.queries
     for (N, D) in rate_list:
-        exr = Exec(mod, stubs); exr.reset(); exr.ovf_mode = 'obligation'
+        exr = Exec(mod, stubs); exr.reset(); exr.ovf_mode = 'obligation'; exr.fp_exact = True
         k1, k2 = z3.Ints('k1 k2')
         kmax = min(2**63 - 1, (rates.Y9999 * N) // D)
         for c in [k1 >= 0, k1 < k2, k2 <= kmax]: exr.assume(c)
